@@ -18,7 +18,7 @@ END_WORDS = ["done.", "fine.", "really?", "yes!", "ends.", "works.", "now.", "(s
 HAZARDS = ["-", "+", "*", "1.", "2)", "#", "##", ">", "---", "***", "===", "~~~", "```", "|", "=", "+x", "-x", "10.", ">x"]
 URLS = ["http://example.com/a_b?c=1&d=2", "https://x.org/path/to/page.html#frag", "www.example.com/q"]
 CODE_LINES = ["x = 1", "", "    indented", "```", "~~~", "````", "> quoted?", "- item?", "# not heading", "a  b   c", "\ttab", "end \\",
-              "<!-- c -->", "{% t %}", "'q' \"dq\" ...", "*x*", "|a|b|"]
+              "<!-- c -->", "{% t %}", "'q' \"dq\" ...", "*x*", "|a|b|", "Compiling...done", "it's \"x\"...y"]
 TAGS = ["{% tag a=1 %}", "{% /tag %}", "{{ var }}", "{# note #}", "<!-- comment -->", "{% field kind=\"string\" label='x' %}",
         "{% t x=\"a...b\" %}", "{{ a...b }}", "<!-- wait... more -->", "{# it's \"q\" #}"]
 INLINE_HTML = ["<b>", "</b>", "<span class=\"x\">", "<br/>"]
@@ -33,9 +33,10 @@ def words(rng: random.Random, n: int, quotes=False, ellipses=False, hazards=Fals
         elif r < 0.22:
             out.append(rng.choice(END_WORDS))
         elif quotes and r < 0.34:
-            out.append(rng.choice(['"quoted', 'text"', "'single'", "it's", "don't", "James'", '"one"', '("paren")', "x=\"v\"", "'tis", "\\\"esc\\\"", "“pre”"]))
+            out.append(rng.choice(['"quoted', 'text"', "'single'", "it's", "don't", "James'", '"one"', '("paren")', "x=\"v\"", "'tis", "\\\"esc\\\"", "“pre”", "\"foo\"...", "'bar'...and", "http://x.org/it's_a/\"q\"", "{% set l = \"50% off\" %}"]))
         elif ellipses and r < 0.44:
-            out.append(rng.choice(["wait...", "...and", "so ... on", "hmm....", "a...b", "\"...\"", "end...)", "x . . .", "…already", "... ..."]))
+            out.append(rng.choice(["wait...", "...and", "so ... on", "hmm....", "a...b", "\"...\"", "end...)", "x . . .", "…already", "... ...",
+                                   "\"yes\"... or", "'no'...", "said \"so\"...and"]))
         else:
             out.append(rng.choice(WORDS))
     return out
@@ -60,7 +61,7 @@ def inline(rng: random.Random, n: int, depth: int = 0, **kw) -> str:
             parts.append("~~" + " ".join(words(rng, 2)) + "~~")
             i += 2
         elif r < 0.84:
-            c = rng.choice(["code", "a b", "x `y` z", "'q'", "\"dq\" ...", "a  b", "f(x)", "end."])
+            c = rng.choice(["code", "a b", "'q'", "\"dq\" ...", "a  b", "f(x)", "end."] + (["x `y` z"] if kw.get("backtick_spans") else []))
             d = "``" if "`" in c else "`"
             parts.append(f"{d} {c} {d}" if "`" in c else f"`{c}`")
             i += 1
@@ -176,8 +177,11 @@ def blocks(rng: random.Random, depth: int, n: int, clean=True, **kw) -> list[lis
             inner = blocks(rng, depth + 1, rng.randint(1, 2), clean=clean, **kw)
             lines = join_blocks(inner)
             out.append(["> " + l if l else ">" for l in lines])
-        elif r < 0.88:
+        elif r < 0.86:
             out.append(code_block(rng, clean))
+        elif r < 0.88 and depth == 0 and out:  # never first: fill_markdown dedents/strips the document start (by design)
+            body = [l for l in (rng.choice(CODE_LINES) for _ in range(rng.randint(1, 4))) if l.strip() and not l.startswith(" ")] or ["code"]
+            out.append(["    " + l for l in body])
         elif r < 0.92 and depth == 0:
             out.append(table(rng, **kw))
         elif r < 0.95:
